@@ -79,6 +79,12 @@ pub open spec fn fp_inv(a: AArena<2>, c: Seq<usize>, p: Polytope, ff: Option<Aff
     &&& forall|i: usize| a.dom().contains(i) && #[trigger] a[i].isleaf && i != c.last() ==> a[i].value.aff.mat.nrows() == out
 }
 
+pub proof fn lemma_fp_facts(a: AArena<2>, c: Seq<usize>, p: Polytope, ff: Option<AffFunc>, dim: usize, out: usize)
+    requires fp_inv(a, c, p, ff, dim, out)
+    ensures c.len() >= 1, a.dom().contains(c.last()), a[c.last()].isleaf, no_kids(a[c.last()]), c.len() <= p.mat.nrows()
+{
+    reveal(fp_inv);
+}
 pub proof fn lemma_fp_init(a: AArena<2>, p: Polytope, ff: Option<AffFunc>, dim: usize, out: usize)
     requires a.dom() =~= set![0usize], a[0].isleaf, no_kids(a[0]), row_fn_of(a[0].value.aff, p, 0), p.mat.nrows() >= 1, p.mat.ncols() == dim
     ensures fp_inv(a, seq![0usize], p, ff, dim, out)
@@ -403,7 +409,7 @@ impl AffTree<2> {
             decreases __rows@.len() - __j
 //@hint loop 1 start
             let ghost a0 = tree.a();
-            proof { reveal(fp_inv); assert(c[c.len() - 1] == parent); }
+            proof { lemma_fp_facts(tree.a(), c, poly, ff, dim, out); }
 //@hint before let aff = decision.clone_aff();
             let ghost a1 = tree.a();
 //@hint after parent = tree.add_child_node(parent, 1, aff).unwrap();
@@ -414,7 +420,7 @@ impl AffTree<2> {
             }
 //@hint loop 1 after
         let ghost b0 = tree.a();
-        proof { reveal(fp_inv); assert(c[c.len() - 1] == parent); }
+        proof { lemma_fp_facts(tree.a(), c, poly, ff, dim, out); }
 //@hint before tree.add_child_node(parent, 1, func_true).unwrap();
         let ghost b1 = tree.a();
 //@hint after tree.add_child_node(parent, 1, func_true).unwrap();
